@@ -71,9 +71,9 @@ class JaqalLexer(Lexer):
 
     # Comments
     ignore_comment = r"//[^\n]*"
-    # We have to get fancy since the regular expression . does not
-    # match a new line
-    ignore_multiline_comment = r"/\*(\n|[^\n])*\*/"
+    # The body may contain anything, including new lines, except the
+    # closing */ (comments do not nest).
+    ignore_multiline_comment = r"/\*([^*]|\*+[^*/])*\*+/"
 
     def ignore_comment(self, token):
         self.lineno += token.value.count("\n")
